@@ -468,9 +468,7 @@ def cases() -> List[Case]:
             return n, n
 
         def assume_df(B, ps):
-            for o in list(B.heap.nodes):
-                if o.kinds == frozenset(["ConstantExpression"]) and isinstance(cur(o, "parent"), Obj) and is_kind(cur(o, "parent"), "*"):
-                    ps.assume(o.ghost["cval"] != 0)  # a zero coefficient is the known finding KF-C08-zero-coefficient
+            return None  # every coefficient, zero included
 
         def shape_df(B, node, result, valid, t=(hc1, hc2, he)):
             if not is_kind(result, "*"):
@@ -671,5 +669,5 @@ def run(tier: str, seed: int) -> int:
         "explanation": "acceptance and shape obligations on symbolic instances of the documented schemas embedded in an unread (arbitrary) context",
         "bounded": {k: v for k, v in bounded.items() if k != "failures"},
     }
-    R.assumptions = ["coefficients of factor-out schemas are non-zero (zero is the listed known finding)"]
+    R.assumptions = ["the schema list is this check's reading of the rule documentation"]
     return R.finish()
